@@ -25,6 +25,7 @@ ID = "C32"
 GEN = os.path.join(vlib.COQ, "C32", "Gen.v")
 SRC_F = "src/cffi/ffiplatform.py"
 SRC_V = "src/cffi/verifier.py"
+SRC_A = "src/cffi/api.py"
 
 
 # ---------------------------------------------------------------------------- regeneration
@@ -138,6 +139,74 @@ def translate_verifier(tree):
     return "\n".join(res)
 
 
+def translate_cdefsources(tree):
+    """FFI.__init__ / FFI._cdef / FFI.include: every statement that touches self._cdefsources, fail closed.
+    _cdef must append its source; include must append a literal, extend with the included FFI's list, append a
+    literal, in some order that is taken from the code."""
+    uses = []
+    cls = [n for n in tree.body if isinstance(n, ast.ClassDef) and n.name == "FFI"]
+    if len(cls) != 1:
+        raise Untranslatable("class FFI not found")
+    for fn in cls[0].body:
+        if not isinstance(fn, ast.FunctionDef):
+            continue
+        for node in ast.walk(fn):
+            if isinstance(node, ast.Attribute) and node.attr == "_cdefsources" and ast.unparse(node.value) == "self":
+                uses.append((fn.name, node))
+    parents = {}
+    for node in ast.walk(tree):
+        for ch in ast.iter_child_nodes(node):
+            parents[ch] = node
+    by_fn = {}
+    for fname, node in uses:
+        par = parents[node]
+        if isinstance(par, ast.Assign) and node in par.targets:
+            by_fn.setdefault(fname, []).append(("assign", par.value))
+        elif isinstance(par, ast.Attribute) and isinstance(parents.get(par), ast.Call) and parents[par].func is par \
+                and par.attr in ("append", "extend") and len(parents[par].args) == 1 and not parents[par].keywords:
+            by_fn.setdefault(fname, []).append((par.attr, parents[par].args[0], parents[par].lineno))
+        else:
+            raise Untranslatable("self._cdefsources is used in an unexpected way in FFI.%s" % fname)
+    if set(by_fn) != {"__init__", "_cdef", "include"}:
+        raise Untranslatable("self._cdefsources is touched by %s" % sorted(by_fn))
+    init = by_fn["__init__"]
+    if len(init) != 1 or init[0][0] != "assign" or ast.unparse(init[0][1]) != "[]":
+        raise Untranslatable("FFI.__init__ does not start with an empty _cdefsources")
+    cd = by_fn["_cdef"]
+    cfn = [f for f in cls[0].body if isinstance(f, ast.FunctionDef) and f.name == "_cdef"][0]
+    src_param = cfn.args.args[1].arg
+    if len(cd) != 1 or cd[0][0] != "append" or ast.unparse(cd[0][1]) != src_param:
+        raise Untranslatable("FFI._cdef does not append its source to _cdefsources exactly once")
+    inc = sorted(by_fn["include"], key=lambda u: u[2])
+    ifn = [f for f in cls[0].body if isinstance(f, ast.FunctionDef) and f.name == "include"][0]
+    other = ifn.args.args[1].arg
+    parts = []
+    for u in inc:
+        if u[0] == "append" and isinstance(u[1], ast.Constant) and isinstance(u[1].value, str):
+            parts.append("[%s]" % T.lit(u[1].value))
+        elif u[0] == "extend" and ast.unparse(u[1]) == "%s._cdefsources" % other:
+            parts.append("included")
+        else:
+            raise Untranslatable("FFI.include: unexpected update of _cdefsources: %s" % ast.unparse(u[1]))
+    if parts.count("included") != 1 or len(parts) != 3:
+        raise Untranslatable("FFI.include: expected one literal, the included list, one literal")
+    lits = [q for q in parts if q != "included"]
+    return "\n".join([
+        "(* %s: FFI._cdef appends its source; FFI.include appends a marker, the included FFI's list, a marker *)" % SRC_A,
+        "Definition cdef_block (csource : str) : list str := [csource].",
+        "Definition include_first : str := %s." % lits[0][1:-1],
+        "Definition include_last : str := %s." % lits[1][1:-1],
+        "Definition include_block (included : list str) : list str :=\n  %s." % " ++ ".join(
+            q if q == "included" else ("[include_first]" if q is parts[[i for i, x in enumerate(parts) if x != "included"][0]] else "[include_last]")
+            for q in parts),
+        "Fixpoint cdefsources_item (it : ffi_item) : list str :=",
+        "  match it with",
+        "  | ICdef s => cdef_block s",
+        "  | IInclude u => include_block (flat_map cdefsources_item u)",
+        "  end.",
+        "Definition cdefsources (t : list ffi_item) : list str := flat_map cdefsources_item t.", ""])
+
+
 def translate(repo):
     tf = py2coq.parse_source(os.path.join(repo, SRC_F))
     tv = py2coq.parse_source(os.path.join(repo, SRC_V))
@@ -159,6 +228,7 @@ def translate(repo):
     out.append("(* %s:110 *)" % SRC_F)
     out.append(T.Trans(functions={"_flatten": sig}, globals_=glob).function(f2, sig2, extra_binders="(fuel : nat) "))
     out.append(translate_verifier(tv))
+    out.append(translate_cdefsources(py2coq.parse_source(os.path.join(repo, SRC_A))))
     return "\n".join(out)
 
 
@@ -271,6 +341,51 @@ def gen_pair(rng):
     return dict(kind="pair", a=a, b=b)
 
 
+def leaves_of(tree):
+    out = []
+    for it in tree:
+        out += leaves_of(it["inc"]) if isinstance(it, dict) else [it]
+    return out
+
+
+def rand_tree(rng, leaves, depth=0):
+    """some include structure over the given cdef strings, keeping their linear order"""
+    out, i = [], 0
+    while i < len(leaves):
+        if depth < 3 and rng.random() < 0.45:
+            n = rng.randrange(0, len(leaves) - i + 1) if rng.random() < 0.9 else 0
+            out.append({"inc": rand_tree(rng, leaves[i:i + n], depth + 1)})
+            i += n
+        else:
+            out.append(leaves[i])
+            i += 1
+    if depth < 2 and rng.random() < 0.1:
+        out.append({"inc": []})
+    return out
+
+
+def gen_include_pair(rng):
+    """two FFIs with the same cdef strings in the same linear order but (usually) different include structure"""
+    ids = rng.sample(range(100, 1000), rng.choice([1, 2, 3, 3, 4, 5]))
+    leaves = [rng.choice(["typedef int t%d;", "struct s%d { int x; };", "enum e%d { E%d };", "typedef struct o%d o%d_t;"]
+                         ).replace("%d", str(i)) for i in ids]
+    base = gen_input(rng)
+    base.pop("sources")
+    r = rng.random()
+    if r < 0.3 and len(leaves) >= 3:
+        # A.include(B1[a]); A.cdef(b); A.include(B2[c])   vs   A.include(B[a, include(C[b]), c])
+        a, b, c = leaves[0], leaves[1], leaves[2:]
+        t1 = [{"inc": [a]}, b, {"inc": c}]
+        t2 = [{"inc": [a, {"inc": [b]}] + c}]
+    elif r < 0.4:
+        t1, t2 = [{"inc": leaves}], [{"inc": [{"inc": leaves}]}]
+    elif r < 0.5:
+        t1, t2 = list(leaves), [{"inc": leaves}]
+    else:
+        t1, t2 = rand_tree(rng, leaves), rand_tree(rng, leaves)
+    return dict(kind="pair", a=dict(base, tree=t1), b=dict(copy.deepcopy(base), tree=t2))
+
+
 def generate(ctx, big=False):
     rng = ctx.rng
     cases = [dict(kind="prims", seed=rng.randrange(10 ** 9), n=150 if not big else 1500)]
@@ -279,6 +394,7 @@ def generate(ctx, big=False):
         inp = gen_input(rng, allow_other=True)
         cases.append(dict(kind="name", input=inp, order_seed=rng.randrange(10 ** 9)))
     cases += [gen_pair(rng) for _ in range(150 if not big else 1500)]
+    cases += [gen_include_pair(rng) for _ in range(40 if not big else 400)]
     return cases
 
 
@@ -298,8 +414,12 @@ def canon(v):
     return ("o", x)
 
 
+def canon_tree(tree):
+    return tuple(("inc", canon_tree(it["inc"])) if isinstance(it, dict) else it for it in tree)
+
+
 def canon_input(i):
-    return (tuple(i["sources"]), i["preamble"], canon({"d": i["kwds"]}))
+    return (canon_tree(i["tree"]) if "tree" in i else tuple(i["sources"]), i["preamble"], canon({"d": i["kwds"]}))
 
 
 def has_other(v):
@@ -318,7 +438,7 @@ def finding_key(case):
     and a source contains a NUL character"""
     a, b = case["a"], case["b"]
     if a["preamble"] == b["preamble"] and canon({"d": a["kwds"]}) == canon({"d": b["kwds"]}) \
-            and any("\x00" in s for s in a["sources"] + b["sources"]):
+            and "sources" in a and "sources" in b and any("\x00" in s for s in a["sources"] + b["sources"]):
         return "nul_in_source"
     return None
 
@@ -340,6 +460,17 @@ def cval(v):
     if k == "d":
         return "(PDict %s)" % ckvs(x)
     return "(POther %s)" % cn(x)
+
+
+def ctree(tree):
+    return "(%s : list ffi_item)" % clist(["(IInclude %s)" % ctree(it["inc"]) if isinstance(it, dict) else "(ICdef %s)" % cstr(it)
+                                         for it in tree])
+
+
+def csources(inp):
+    if "tree" in inp:
+        return "(cdefsources %s)" % ctree(inp["tree"])
+    return clist([cstr(x) for x in inp["sources"]])
 
 
 def ckvs(kvs):
@@ -437,6 +568,9 @@ def orders_for(case, proc):
 
 
 def describe(inp):
+    if "tree" in inp:
+        return "FFI built by cdef()/include() as %s, source %r, keywords %s" % (
+            json.dumps(inp["tree"]), inp["preamble"], json.dumps(inp["kwds"]))
     return "cdef sources %r, source %r, keywords %s" % (inp["sources"], inp["preamble"], json.dumps(inp["kwds"]))
 
 
@@ -469,7 +603,7 @@ def evaluate(ctx, cases):
                 ctx.nontrivial(("flatten", c["value"]))
         groups.append(("flatten", "fun x => x", "res_eqb (list_eqb N.eqb)", coq, fl,
                        "C32.Gen.flatten vs cffi.ffiplatform.flatten"))
-        kcoq, kown = [], []
+        kcoq, kown, scoq, sown = [], [], [], []
         for c, r in zip(pairs, out["results"][len(fl):]):
             ctx.count()
             a, b = r["a"], r["b"]
@@ -491,10 +625,19 @@ def evaluate(ctx, cases):
                     ctx.nontrivial(("pair", canon_input(c["a"]), canon_input(c["b"])))
             for side, rr in (("a", a), ("b", b)):
                 inp = c[side]
-                if rr.get("cdefsources", inp["sources"]) != inp["sources"]:
+                if "tree" in inp:
+                    if "cdefsources" in rr:
+                        scoq.append((ctree(inp["tree"]), clist([cstr(x) for x in rr["cdefsources"]])))
+                        sown.append(c)
+                        if any(isinstance(it, dict) for it in inp["tree"]):
+                            ctx.hist("include_depth", json.dumps(inp["tree"]).count("inc"))
+                elif rr.get("cdefsources", inp["sources"]) != inp["sources"]:
                     ctx.mismatch(c, "ffi._cdefsources is not the list of cdef() arguments", "harness assumption")
+                if str(rr.get("exc", "")).startswith("cdef:"):
+                    ctx.mismatch(c, "the generated cdef/include structure is refused: %s" % rr["exc"], "harness: generator")
+                    continue
                 lit = "(key_model %d %s %s %s %s %s)" % (FUEL, cstr(version), cstr(vvm), cstr(inp["preamble"]),
-                                                       ckvs(inp["kwds"]), clist([cstr(x) for x in inp["sources"]]))
+                                                       ckvs(inp["kwds"]), csources(inp))
                 if "key" in rr:
                     try:
                         exp = "(Ok %s)" % cstr(bytes.fromhex(rr["key"]).decode("utf-8"))
@@ -509,6 +652,8 @@ def evaluate(ctx, cases):
                 kown.append(c)
         groups.append(("verify_key", "fun x => x", "res_eqb (list_eqb N.eqb)", kcoq, kown,
                        "C32.Gen.verify_key/flatten vs the bytes passed to crc32 by Verifier.__init__"))
+        groups.append(("cdefsources", "cdefsources", "list_eqb (list_eqb N.eqb)", scoq, sown,
+                       "C32.Gen.cdefsources vs ffi._cdefsources after the same cdef()/include() calls"))
     # names: three processes with different hash seeds and keyword orders
     if names:
         per_proc = []
@@ -661,12 +806,16 @@ def run(ctx):
         "must coincide — and vs the model with the observed CRCs; pair: two close inputs (strings re-split across list "
         "items, list/tuple, True/1, text moved between source, kwargs and cdefs, sources joined/split, NUL in a comment) — "
         "hashed keys must differ iff the inputs differ (up to the recorded reading), and equal names require equal CRC pairs; "
+        "include pairs: two FFIs with the same cdef strings in the same linear order and different include() nesting / "
+        "sibling structure (up to 3 levels, empty includes) — keys must differ, and ffi._cdefsources must be the model's; "
         "fmt: the real name formatting probed with 900 chosen CRC pairs (crc32 replaced by constants) — any two pairs with "
         "one name are turned into two real inputs by CRC32 forgery and reported. Non-trivial = container value / "
         ">= 2 keywords / any pair; distinct by canonical input.")
     ctx.assumptions += [
         "translator tools/props/c35_trans.py + shape-matched driver for Verifier.__init__; primitives C32/PyStr.v, "
         "C35/PyStr.v, C24/Utf8.v validated against CPython on every run",
+        "an FFI is modelled as the tree of its cdef() strings and include()d FFIs in call order (include takes the included "
+        "FFI as it is at that moment); override/packed options of cdef do not enter the key",
         "binascii.crc32 is an uninterpreted function (Section variable); observed values are supplied to the model",
         "dict keys of keyword values are str (the model's universe); reading: injectivity up to list=tuple, True=1, "
         "dict order, for NUL-free source/cdefs (DESIGN Appendix B)",
@@ -684,7 +833,10 @@ MANIFEST = dict(
          "it is a prefix code, hence injective up to list=tuple / True=1 / dict order; dict order never matters (sorted "
          "keys); the hashed key (version, verifier version, source, flattened kwargs, cdef sources joined by NUL) is "
          "injective for NUL-free source and cdefs, and its UTF-8 bytes too; refuted with a NUL in a cdef source "
-         "(witness replayed on the real code: known finding); the name is a function of tag, engine and the two CRCs and, "
+         "(witness replayed on the real code: known finding); ffi._cdefsources, regenerated from FFI._cdef / FFI.include, "
+         "determines the FFI's cdef strings AND its include() structure (bracket matching; needs the two markers to differ "
+         "and no cdef string to be a marker — cdef() refuses '[' and ']'), so the key is injective in the inputs the "
+         "property names (C32_cdefsources_injective, C32_user_key_injective); the name is a function of tag, engine and the two CRCs and, "
          "through hex()/lstrip/rstrip and the 'x' left between the two numbers, injective in that pair: inequivalent inputs "
          "share a name only if two different byte strings have the same CRC pair (C32_same_name_only_by_crc_collision). "
          "The real formatting code is probed on every run with chosen CRC pairs; a clash is turned into two real inputs by "
